@@ -43,6 +43,9 @@ Limits
   * Weights differing only in numeric type (2 vs 2.0) are not used as an edit; metadata edits always change the value
     under Python == and in its JSON text.
   * SHA-256 collisions are ignored.
+Execution
+  Fixed tasks (container type x weightedness x label kind x part) in forked worker processes, string-seeded RNG per
+  task, results merged in task order (see hv/rt/c06.py run_tasks): the evidence does not depend on the process count.
 """
 import copy
 import random
